@@ -25,11 +25,25 @@ build() {
     fi
   fi
   export VERIF_HOOKS=$HOOKS
+  # the CLI under test (C20), rebuilt from the tree under test
+  (cd "$VERIF_REPO" && go build -o "$VERIF_ROOT/bin/ion-go-cli" ./cmd/ion-go) 2> out/build-cli.err || { echo "BROKEN: cmd/ion-go does not build" >&2; cat out/build-cli.err >&2; rm -f bin/ion-go-cli; }
   export VERIF_MODFILE="${modfile[*]:-}"
 }
 case "${1:-}" in
   setup) build; echo "setup ok (hooks=$VERIF_HOOKS)";;
-  check) build; shift; exec ./bin/verif check "$@";;
+  check) build; shift
+    if [ "${1:-}" = "C18" ]; then
+      # C18 is decided by the Go race detector: a second binary built with -race
+      TAGS=(-tags verif); [ "$VERIF_HOOKS" = 1 ] || TAGS=()
+      if (cd h && go build $VERIF_MODFILE -race "${TAGS[@]}" -o ../bin/verif-race ./cmd/verif) 2> out/build-race.err; then
+        rm -rf out/race; mkdir -p out/race
+        export VERIF_RACE_LOG="$VERIF_ROOT/out/race/c18"
+        export GORACE="halt_on_error=0 log_path=$VERIF_RACE_LOG history_size=3"
+        exec ./bin/verif-race check "$@"
+      fi
+      cat out/build-race.err >&2; echo "NOTE: race build failed; running without the race detector" >&2
+    fi
+    exec ./bin/verif check "$@";;
   replay) build; shift; exec ./bin/verif replay "$@";;
   *) echo "usage: run.sh setup | check <ID> quick|thorough | replay <path>"; exit 2;;
 esac
